@@ -12,6 +12,7 @@ import (
 	"strings"
 
 	"golang.org/x/tools/go/ssa"
+	"golang.org/x/tools/go/ssa/ssautil"
 )
 
 type ModSet struct {
@@ -1361,7 +1362,7 @@ func (fr *Frame) applyContract(sp *FuncSpec, fn *ssa.Function, name string, pnam
 				continue
 			}
 		}
-		fc.assume(sImp(guard, f), "contract of "+name+": "+c.Text)
+		fc.assumeC(sImp(guard, f), "contract of "+name+": "+c.Text, c, name)
 	}
 	if sp.Trusted {
 		fc.note("assumed contract: " + name)
@@ -1481,6 +1482,19 @@ func (fr *Frame) builtin(in ssa.Instruction, bi *ssa.Builtin, c *ssa.CallCommon,
 		res := Val{T: s.T, Sub: []Val{{T: tRef, S: rb}, {T: tInt, S: sIte(fits, s.Sub[1].S, z)}, {T: tInt, S: newLen}, {T: tInt, S: sIte(fits, s.Sub[3].S, sIte(isNilRes, z, sym(nc)))}}}
 		res = fr.nameVal(res, "append")
 		// element effects: for all leaves of the element type
+		if kindOf(et) == KStruct && !isStr && n == m.intConstI(1, tInt) {
+			// append(s, v) of one struct value: the new element (index len(s) of the result) holds v's fields; the
+			// prefix of a re-allocated result is not tracked
+			src := fc.load(st, &Addr{Kind: aElem, Obj: srcBase, Idx: srcOff, ET: et}, et)
+			dst := &Addr{Kind: aElem, Obj: res.Sub[0].S, Idx: e.idxAdd(res.Sub[1].S, s.Sub[2].S), ET: et}
+			if guard != "true" {
+				old := fc.load(st, dst, et)
+				src = fr.mergeVals(et, []Val{src, old}, []string{guard, "true"})
+			}
+			st = fc.storeVal(st, dst, et, src)
+			setRes(res)
+			return st
+		}
 		if kindOf(et) == KStruct || kindOf(et) == KArray {
 			fc.note("append of struct elements: element contents not modelled")
 			setRes(res)
@@ -2038,4 +2052,229 @@ func errComponent(res Val) *Val {
 		}
 	}
 	return nil
+}
+
+// pkgStateAccess: package-level variables of the verified package that fn refers to, directly or through callees and
+// closures that have no contract of their own (those with a contract answer for themselves); wr marks the ones that
+// are assigned as a whole or whose address escapes into a call.
+func (g *Gen) pkgStateAccess(fn *ssa.Function) (acc, wr map[string]bool) {
+	acc, wr = map[string]bool{}, map[string]bool{}
+	seen := map[*ssa.Function]bool{}
+	var scan func(f *ssa.Function, depth int)
+	scan = func(f *ssa.Function, depth int) {
+		if f == nil || seen[f] || f.Blocks == nil || depth > 6 {
+			return
+		}
+		seen[f] = true
+		for _, b := range f.Blocks {
+			for _, in := range b.Instrs {
+				var ops []*ssa.Value
+				ops = in.Operands(ops)
+				for _, op := range ops {
+					if op == nil || *op == nil {
+						continue
+					}
+					if gl, ok := (*op).(*ssa.Global); ok && gl.Pkg == g.pkg {
+						acc[gl.Name()] = true
+						switch x := in.(type) {
+						case *ssa.Store:
+							if x.Addr == gl {
+								wr[gl.Name()] = true
+							}
+						case ssa.CallInstruction:
+							wr[gl.Name()] = true
+						}
+					}
+				}
+				if mc, ok := in.(*ssa.MakeClosure); ok {
+					cf := mc.Fn.(*ssa.Function)
+					if _, has := g.specs.Funcs[fnName(cf)]; !has {
+						scan(cf, depth+1)
+					}
+				}
+				if ci, ok := in.(ssa.CallInstruction); ok {
+					if cal := ci.Common().StaticCallee(); cal != nil && cal.Pkg == g.pkg {
+						if _, has := g.specs.Funcs[fnName(cal)]; !has {
+							scan(cal, depth+1)
+						}
+					}
+				}
+			}
+		}
+	}
+	scan(fn, 0)
+	return
+}
+
+// inCone: is the named function reachable (static calls, closures, and - for interface calls - every method of the
+// verified package with that name) from one of the roots declared for the tag?
+func (g *Gen) inCone(tag, name string) bool {
+	if g.coneOf == nil {
+		g.coneOf = map[string]map[string]bool{}
+	}
+	if c, ok := g.coneOf[tag]; ok {
+		return c[name]
+	}
+	byMethod := map[string][]*ssa.Function{}
+	all := map[string]*ssa.Function{}
+	for f := range ssautil.AllFunctions(g.prog) {
+		if f.Pkg != g.pkg && !(f.Pkg == nil && f.Parent() != nil) {
+			continue
+		}
+		all[fnName(f)] = f
+		if f.Signature.Recv() != nil {
+			byMethod[f.Name()] = append(byMethod[f.Name()], f)
+		}
+	}
+	c := map[string]bool{}
+	var work []*ssa.Function
+	for _, r := range g.specs.Cones[tag] {
+		if f := all[r]; f != nil {
+			work = append(work, f)
+		} else if f := g.fnByName[r]; f != nil {
+			work = append(work, f)
+		}
+	}
+	for len(work) > 0 {
+		f := work[len(work)-1]
+		work = work[:len(work)-1]
+		if f == nil || c[fnName(f)] || f.Blocks == nil {
+			continue
+		}
+		c[fnName(f)] = true
+		if g.coneFns == nil {
+			g.coneFns = map[string][]*ssa.Function{}
+		}
+		g.coneFns[tag] = append(g.coneFns[tag], f)
+		for _, af := range f.AnonFuncs {
+			work = append(work, af)
+		}
+		for _, b := range f.Blocks {
+			for _, in := range b.Instrs {
+				if u, ok := in.(*ssa.UnOp); ok {
+					// a package-level function variable is loaded: whatever the initialiser stored there may be called
+					if gl, ok := u.X.(*ssa.Global); ok && gl.Pkg == g.pkg {
+						if _, isFn := pointee(gl.Type()).Underlying().(*types.Signature); isFn {
+							work = append(work, g.funcsStoredIn(gl)...)
+						}
+					}
+				}
+				ci, ok := in.(ssa.CallInstruction)
+				if !ok {
+					continue
+				}
+				if ci.Common().IsInvoke() {
+					work = append(work, byMethod[ci.Common().Method.Name()]...)
+				} else if cal := ci.Common().StaticCallee(); cal != nil && (cal.Pkg == g.pkg || cal.Parent() != nil) {
+					work = append(work, cal)
+				}
+			}
+		}
+	}
+	g.coneOf[tag] = c
+	return c[name]
+}
+
+// coneAccess: package-level variables touched by any function of the tag's cone (with or without contract).
+func (g *Gen) coneAccess(tag string) (acc, wr map[string]bool, where map[string]string) {
+	g.inCone(tag, "")
+	acc, wr, where = map[string]bool{}, map[string]bool{}, map[string]string{}
+	for _, f := range g.coneFns[tag] {
+		g.directAccess(f, acc, wr, where)
+	}
+	return
+}
+
+func (g *Gen) directAccess(f *ssa.Function, acc, wr map[string]bool, where map[string]string) {
+	for _, b := range f.Blocks {
+		for _, in := range b.Instrs {
+			var ops []*ssa.Value
+			ops = in.Operands(ops)
+			for _, op := range ops {
+				if op == nil || *op == nil {
+					continue
+				}
+				if gl, ok := (*op).(*ssa.Global); ok && gl.Pkg == g.pkg {
+					acc[gl.Name()] = true
+					if where != nil && where[gl.Name()] == "" {
+						where[gl.Name()] = fnName(f)
+					}
+					switch x := in.(type) {
+					case *ssa.Store:
+						if x.Addr == gl {
+							wr[gl.Name()] = true
+						}
+					case ssa.CallInstruction:
+						wr[gl.Name()] = true
+					}
+				}
+			}
+		}
+	}
+}
+
+// funcsStoredIn: functions assigned to a package-level function variable by the package initialiser.
+func (g *Gen) funcsStoredIn(gl *ssa.Global) []*ssa.Function {
+	var out []*ssa.Function
+	for _, m := range g.pkg.Members {
+		f, ok := m.(*ssa.Function)
+		if !ok || f.Name() != "init" || f.Blocks == nil {
+			continue
+		}
+		for _, b := range f.Blocks {
+			for _, in := range b.Instrs {
+				st, ok := in.(*ssa.Store)
+				if !ok || st.Addr != gl {
+					continue
+				}
+				switch v := st.Val.(type) {
+				case *ssa.Function:
+					out = append(out, v)
+				case *ssa.MakeClosure:
+					out = append(out, v.Fn.(*ssa.Function))
+				}
+			}
+		}
+	}
+	return out
+}
+
+// autoReadonly: an undeclared package-level variable of scalar, string, function or interface type that no function
+// other than the package initialiser assigns is constant-like process state and needs no declaration.
+func (g *Gen) autoReadonly(name string) bool {
+	m, ok := g.pkg.Members[name]
+	if !ok {
+		return false
+	}
+	gl, ok := m.(*ssa.Global)
+	if !ok {
+		return false
+	}
+	switch pointee(gl.Type()).Underlying().(type) {
+	case *types.Basic, *types.Signature, *types.Interface:
+	default:
+		return false
+	}
+	for f := range ssautil.AllFunctions(g.prog) {
+		if f.Blocks == nil || (f.Pkg != g.pkg && f.Parent() == nil) || strings.HasPrefix(f.Name(), "init") {
+			continue
+		}
+		for _, b := range f.Blocks {
+			for _, in := range b.Instrs {
+				switch x := in.(type) {
+				case *ssa.Store:
+					if x.Addr == gl {
+						return false
+					}
+				case ssa.CallInstruction:
+					for _, a := range x.Common().Args {
+						if a == gl {
+							return false
+						}
+					}
+				}
+			}
+		}
+	}
+	return true
 }
